@@ -9,7 +9,7 @@ BUDGET = {"quick": dict(cases=1000), "thorough": dict(cases=36000)}
 MIN_NONTRIVIAL = {"quick": 1000, "thorough": 12000}
 BLOB = (400, 1600)
 RULE = ("Hypothesis byte-backed generator of histories for ring capacities 1, 2, 3, 8: the C13 event histories (events of four sorts including ones that fail "
-        "immediately, bursts, chains, events on commands that lines use, histories ending inside a line with an event raised afterwards, numeric variables of unsupported width, disable-flag flips) with command lines whose handlers use multi-step return codes and HOLD (released when the parser stalls, with either "
+        "immediately, bursts, chains, events on commands that lines use, histories ending inside a line with an event raised afterwards, numeric variables of unsupported width, disable-flag flips, need_all_vars line commands, empty argument lists, run handlers returning PRINT_CMD_LIST_OK with entries that do not fit) with command lines whose handlers use multi-step return codes and HOLD (released when the parser stalls, with either "
         "status), write back-pressure and read availability patterns that eventually stop. The world runs in probe mode: after EVERY cat_service call that "
         "returns OK it immediately calls cat_service again with no new input byte, trigger or release. Oracle (a): that call emits nothing, invokes no callback "
         "and returns OK, and the QueueModel has no accepted event pending or in progress at that step. Oracle (b): after the last stimulus (input byte, action, "
